@@ -59,14 +59,17 @@ def concretise(beh, rich):
             s += '\\footnote{ff%d note}' % i
         if rich:
             s += ' word\\index{key%d} cc%d \\cite{bib1} done' % (i, i)
+            if i == 0:
+                # a display form whose initial differs from the sort key's, sorted between two entries of the same letter
+                s += ' w\\index{identity} w\\index{include@\\#include} w\\index{indexx} w\\index{norm@$\\|x\\|$} w\\index{nab} w\\index{nzz}'
         for k, r in enumerate(refs):
             if r['from'] == i:
-                s += ' see rr%d \\ref{%s%d} here' % (k + 1, 'lab' if r['kind'] == 'sec' else 'eq', r['to'])
+                s += ' see rr%d \\ref{%s} here' % (k + 1, c13.label(beh['nodes'], r['to']) if r['kind'] == 'sec' else 'eq%d' % r['to'])
         s += '\n\\begin{equation}\\label{eq%d} x=%d \\end{equation}\n' % (i, i)
         return s + '\n'
     out.append(body(0, beh['docfn']))
     for i, n in enumerate(beh['nodes'] or []):
-        out.append('\\%s{%s}%s\n' % (['section', 'subsection', 'subsubsection'][n['lvl'] - 1], c13.TITLES[n['title']], '\\label{lab%d}' % (i + 1) if n['lab'] else ''))
+        out.append('\\%s{%s}%s\n' % (['section', 'subsection', 'subsubsection'][n['lvl'] - 1], c13.TITLES[n['title']], '\\label{%s}' % c13.label(beh['nodes'], i + 1) if n['lab'] != 'none' else ''))
         out.append(body(i + 1, n['fn']))
     if rich:
         out.append('\\begin{thebibliography}{9}\n\\bibitem{bib1} Author, zz Title.\n\\end{thebibliography}\n\\printindex\n')
@@ -141,6 +144,7 @@ def replay_one(job):
     rich = variant != 'pure'
     src = concretise(beh, rich)
     ov = c13.overrides(beh)
+    ov[('document', 'sec-num-depth')] = 3        # every unit of the grammar is numbered (deeper units have no number to show: `??`)
     renderer = 'HTML5'
     base = ''
     assets = False
@@ -178,7 +182,7 @@ def replay_one(job):
         u = beh['urls'][k]
         want = c13.name_of(u['file']) + '.html'
         if u['frag']:
-            want += '#%s%d' % ('lab' if r['kind'] == 'sec' else 'eq', u['id'])
+            want += '#' + (c13.label(beh['nodes'], u['id']) if r['kind'] == 'sec' else 'eq%d' % u['id'])
         want = base + want if base else want
         shown = numstr(beh['shown'][k])
         src_file = home[r['from']]
@@ -194,6 +198,9 @@ def replay_one(job):
         nfiles = len(beh['files'])
         for j, f in enumerate(beh['files']):
             fn = c13.name_of(f['name']) + '.html'
+            if fn not in files:
+                bad.append(('file-missing', 'the unit %s should be written to %s; files: %s %s' % (f['node'], fn, sorted(files), ctx)))
+                continue
             p = Page(files[fn])
             rels = dict((cls, v) for tag, attr, v, cls in p.links if tag == 'link' and cls in ('next', 'prev', 'up'))
             for rel in ('prev', 'next', 'up'):
@@ -260,12 +267,13 @@ def run(chk):
     tier, seed = chk.tier, chk.seed
     chk.rule = ('every document of up to MaxNodes units x split level x template x up to MaxRefs references; non-trivial = a reference whose '
                 'source and target are written to different files, or a fragment link; distinct by (units, split, template, references, variant)')
-    chk.assumptions = ['documents are rendered in an empty directory (no .paux of an earlier run or of another document)',
+    chk.assumptions = ['sec-num-depth is 3 so that every unit a reference can name has a number (a reference to an unnumbered unit prints ?? without a link)',
+                       'documents are rendered in an empty directory (no .paux of an earlier run or of another document)',
                        'asset links (css, js, svg sprites) are checked only in the variant that copies the theme extras']
     behs = []
     plan = [(2, 1), (3, 0)] if tier == 'quick' else [(3, 1), (2, 2), (4, 0)]
     for mn, mr in plan:
-        res = tlc.run('Split', cfg_text=CFG % (mn, '"default", "title", "single"', mr), timeout=3400, heap='12g')
+        res = tlc.run('Split', cfg_text=CFG % (mn, '"default", "title", "single"', mr, '"none", "own", "index"'), timeout=3400, heap='12g')
         chk.add_tlc(res, 'links(MaxNodes=%d,refs<=%d)' % (mn, mr))
         if not res.ok:
             chk.violation('design:' + ','.join(res.violated or ['error']),
@@ -273,7 +281,7 @@ def run(chk):
         behs.extend(res.beh)
     # longer documents with several references by simulation
     nsim, dsim = (400, 9) if tier == 'quick' else (6000, 12)
-    rs = tlc.run('Split', cfg_text=CFG % (5, '"default", "title", "single"', 3), simulate=nsim, depth=dsim, seed=seed + 5, timeout=3400, heap='8g', workers=4)
+    rs = tlc.run('Split', cfg_text=CFG % (5, '"default", "title", "single"', 3, '"none", "own", "index", "sect1"'), simulate=nsim, depth=dsim, seed=seed + 5, timeout=3400, heap='8g', workers=4)
     chk.add_tlc(rs, 'simulate(num=%d,depth=%d,MaxNodes=5,refs<=3)' % (nsim, dsim))
     if rs.violated:
         chk.violation('design:sim:' + ','.join(rs.violated), 'TLC simulation found a counterexample: %s\n%s' % (rs.violated, rs.trace_text[:2500]))
@@ -284,7 +292,7 @@ def run(chk):
     noref = [b for b in behs if not b['refs']]
     rnd.shuffle(withref)
     rnd.shuffle(noref)
-    n1, n2, n3 = (5000, 1200, 150) if tier == 'quick' else (80000, 20000, 1500)
+    n1, n2, n3 = (3500, 1000, 150) if tier == 'quick' else (80000, 20000, 1500)
     jobs = [(b, 'pure') for b in withref[:n1]] + [(b, 'pure') for b in noref[:n2]]
     seen = set()
     for b in rs.beh:
